@@ -109,7 +109,7 @@ FiredState(S, atoms) ==
              IN  IF is # {} /\ (S.m.eq = <<>> \/ Head(S.m.eq).name # x)
                  THEN LET i == CHOOSE j \in is : \A k \in is : j <= k
                       IN  [S EXCEPT !.m.dq = SubSeq(@, 1, i - 1) \o SubSeq(@, i + 1, Len(@)),
-                                    !.m.eq = <<S.m.dq[i]>> \o @]
+                                    !.m.eq = <<Ev(S.m.dq[i].name)>> \o @]
                  ELSE S
 
 TStep ==
